@@ -253,8 +253,14 @@ pub fn gen_for(target: Target, rng: &mut Rng) -> Node {
         Target::Unit => Node::Null,
         Target::Str => Node::Str(gen_string(rng)),
         Target::I64 => Node::Int(rng.below(1_000_000) as i64 - 500_000),
-        Target::F64 => Node::Float(rng.pick(&["1.5", "-2.25", "1e10", ".inf", ".nan", "0.1", "7"]).to_string()),
+        Target::F64 => Node::Float(rng.pick(&["1.5", "-2.25", "1e10", ".inf", ".nan", "0.1", "7", "+.inf", "-.inf", "+.nan", ".INF", ".NaN", ".Inf"]).to_string()),
         Target::Bool => Node::Bool(rng.chance(1, 2)),
+        Target::UntilX => {
+            let n = rng.below(3);
+            let mut m: Vec<(String, Node)> = (0..n).map(|i| (gen_key(rng, i), Node::Int(rng.below(100) as i64))).collect();
+            m.push(("x".into(), Node::Int(rng.below(100) as i64)));
+            Node::Map(m)
+        }
         Target::FirstEntry => {
             let n = 1 + rng.below(3);
             Node::Map((0..n).map(|i| (gen_key(rng, i), Node::Int(rng.below(100) as i64))).collect())
@@ -627,6 +633,8 @@ pub fn corpus() -> Vec<(String, Target)> {
         ("€: 1\n𝄞: 2\n", Json),
         ("a: 1\n...\n", Json),
         ("a: 1\n...\n# after\n", Json),
+        // every spelling of the non-finite floats (an untyped target gets them as text)
+        ("a: .inf\nb: +.inf\nc: -.inf\nd: .nan\ne: +.nan\nf: .INF\ng: .NaN\nh: [+.inf, +.nan, -.Inf]\n", Json),
         // text that the scanner rejects behind an explicit end marker is ignored by the single-document
         // entry points; a reader fault or the cap inside it is not
         ("a: 1\n...\n\"never closed trailing text that goes on for a while so that several reads fall into it\n", Json),
